@@ -1,12 +1,15 @@
 #!/bin/bash
-# usage: seedconfirm.sh <tag> <pkgdir>  — in worktree /tmp/wt/<tag>: demo fails with change, passes without; package tests pass with change
+# usage: seedconfirm.sh <tag> <pkgdir> [skipexisting]  — in worktree /tmp/wt/<tag>: demo fails with change, passes without; package tests pass with change
 tag=$1; pkg=$2
 cd /tmp/wt/$tag || exit 2
 export GOFLAGS=-mod=mod GOPROXY=off
-files=$(grep '^+++ b/' /tmp/seedout/$tag/patch.diff | sed 's#+++ b/##')
-echo "--- with change: demo (expect FAIL)"; go test -vet=off -count=1 ./$pkg -run 'VerifSeed' 2>&1 | grep -E "^(--- FAIL|FAIL|ok|PASS)" | head -5
-echo "--- with change: existing tests of $pkg (expect ok, except the two known failures in portalwire)"; go test -vet=off -count=1 ./$pkg -skip 'VerifSeed' 2>&1 | grep -E "^(--- FAIL|FAIL|ok)" | head -8
-git stash push -q -- $files
-echo "--- without change: demo (expect ok)"; go test -vet=off -count=1 ./$pkg -run 'VerifSeed' 2>&1 | grep -E "^(--- FAIL|FAIL|ok|PASS)" | head -5
-git stash pop -q
+P=/tmp/seedout/$tag/patch.diff
+git apply -R --check $P 2>/dev/null || { git checkout -q -- . ; git apply $P || exit 2; }
+echo "--- with change: demo (expect FAIL)"; go test -vet=off -count=1 ./$pkg -run 'Seed' 2>&1 | grep -E "^(--- FAIL|FAIL|ok|PASS)" | head -5
+if [ -z "$3" ]; then
+echo "--- with change: existing tests of $pkg (expect ok, except the two known failures in portalwire)"; go test -vet=off -count=1 ./$pkg -skip 'Seed' 2>&1 | grep -E "^(--- FAIL|FAIL|ok)" | head -8
+fi
+git apply -R $P
+echo "--- without change: demo (expect ok)"; go test -vet=off -count=1 ./$pkg -run 'Seed' 2>&1 | grep -E "^(--- FAIL|FAIL|ok|PASS)" | head -5
+git apply $P
 git status --porcelain | head
